@@ -143,6 +143,17 @@ def restored_fields_not_clobbered(chk: Check, rule: str = 'SYM-default-before-re
     chk.ob(rule, init, True, f'init() assigns {n} attribute(s), none of them persisted ({sorted(persisted)})', kind='init-runtime-only')
 
 
+def inputs_encoded_by_deepcopy(chk: Check, rule: str) -> None:
+    """encode_input_args / decode_input_args hand back ``copy.deepcopy(<argument>)`` and nothing else: the mapping that goes into (comes out of) a checkpoint is the
+    same KIND of object as the live one -- frozen at every namespace level -- and shares nothing with it."""
+    prog = chk.prog
+    for q in ('processes.Process.encode_input_args', 'processes.Process.decode_input_args'):
+        f = prog.func(q)
+        rets = [n for n in ast.walk(f.node) if isinstance(n, ast.Return)]
+        ok = len(rets) == 1 and isinstance(rets[0].value, ast.Call) and norm(rets[0].value.func) == 'copy.deepcopy' and [norm(a) for a in rets[0].value.args] == [f.params[1]]
+        chk.ob(rule, f, ok, f'{f.name} returns a deep copy of its argument', kind='deepcopy')
+
+
 def run(chk: Check) -> None:
     prog = chk.prog
     ctx = chk.ctx
@@ -271,11 +282,7 @@ def run(chk: Check) -> None:
         if k in ('INPUTS_RAW', 'INPUTS_PARSED', 'OUTPUTS'):
             ok = isinstance(v, ast.Call) and norm(v.func) == 'self.encode_input_args'
             chk.ob('PROV-copy-at-save', ps, ok, f'{k} is stored through encode_input_args (no reference to the live mapping)', node=v, kind=f'encoded:{k}')
-    for q in ('processes.Process.encode_input_args', 'processes.Process.decode_input_args'):
-        f = prog.func(q)
-        rets = [n for n in ast.walk(f.node) if isinstance(n, ast.Return)]
-        ok = len(rets) == 1 and isinstance(rets[0].value, ast.Call) and norm(rets[0].value.func) == 'copy.deepcopy' and [norm(a) for a in rets[0].value.args] == [f.params[1]]
-        chk.ob('PROV-copy-at-save', f, ok, f'{f.name} returns a deep copy of its argument', kind='deepcopy')
+    inputs_encoded_by_deepcopy(chk, 'PROV-copy-at-save')
     for k in ('INPUTS_RAW', 'INPUTS_PARSED', 'OUTPUTS'):
         uses = loaded_keys_of(prog, pl).get(k, [])
         ok = bool(uses) and all(any(isinstance(c, ast.Call) and norm(c.func) == 'self.decode_input_args' and any(u is x for x in ast.walk(c)) for c in ast.walk(pl.node)) for u in uses)
